@@ -486,7 +486,7 @@ def run_incl_dump(runner, text):
     with open(os.path.join(d, "f.as"), "wb") as h:
         h.write(text)
     import subprocess
-    cmd = [runner.aldor, "-Nfile=" + os.path.join(runner.src, "aldor.conf"), "-WTr+in", "f.as"]
+    cmd = [runner.aldor, "-Nfile=" + os.path.join(runner.src, "aldor.conf"), "-M", "no-emax", "-WTr+in", "f.as"]      # (the model has no error cap: 10 errors would end the run with status 1)
     try:
         p = subprocess.run(cmd, cwd=d, stdin=subprocess.DEVNULL, stdout=subprocess.PIPE, stderr=subprocess.STDOUT, timeout=scanfuzz.TIMEOUT)
     except subprocess.TimeoutExpired:
@@ -525,7 +525,7 @@ def if_correspondence(ctx, runner, pool, msgs):
             ctx.finding("scanfuzz|silent-accept|if-open-at-end-of-file",
                         "an `#if` is still open at the end of the file (depth %s) but the compiler %s: %r" % (
                             depth, "exits 0" if rc == 0 else "prints no end-of-file error", text),
-                        {"kind": "impl-violates-property", "input_hex": text.hex(), "command": "aldor -Nfile=<src>/aldor.conf -WTr+in f.as",
+                        {"kind": "impl-violates-property", "input_hex": text.hex(), "command": "aldor -Nfile=<src>/aldor.conf -M no-emax -WTr+in f.as",
                          "model": mo, "output_tail": o[-400:]})
             continue
         if not honest:
